@@ -162,8 +162,15 @@ def run(chk):
     for scheme in ("POLE", "MSBAR"):
         for order in (1, 2, 3, 4):
             for nf_low in (3, 4, 5):
-                for direction in ("up", "down"):
-                    inst = f"{scheme},order={order},{nf_low}{'->' if direction == 'up' else '<-'}{nf_low + 1}"
+                # the direction in FLAVOUR NUMBER decides the matching; the direction in SCALE of the segment that reaches the wall is
+                # independent of it (a reference quoted outside its own patch first walks back to the wall): both are instantiated
+                for direction, walk in (("up", "natural"), ("down", "natural"), ("up", "from beyond the wall"), ("down", "from beyond the wall")):
+                    if walk != "natural" and (order not in (2, 3) or scheme != "POLE"):
+                        continue
+                    inst = f"{scheme},order={order},{nf_low}{'->' if direction == 'up' else '<-'}{nf_low + 1}" + ("" if walk == "natural" else ",reference " + walk)
+                    rising = (direction == "up") == (walk == "natural")      # the first segment runs towards higher scales
+                    scale_rep = {"wall": Fraction(2), "mu0": Fraction(1) if rising else Fraction(3),
+                                 "mu1": Fraction(4) if direction == "up" else Fraction(1, 2)}
                     n_inst += 1
                     self_ = Obj(cls)
                     aref = Arr.from_nested([dag.sym("a_ref"), dag.sym("aem_ref")])
@@ -184,7 +191,10 @@ def run(chk):
                     pe.overrides["eko.matchings.Atlas.path"] = lambda pe_, args, kwargs: [s1, s2]
                     pe.overrides["eko.matchings.lepton_number"] = lambda pe_, args, kwargs: 3
                     # named regime: both segments have non-negligible length
-                    pe.assume = lambda text, env, pe=pe: decide_on_values(pe, text, env) if "isclose" in text else None  # distinct symbolic scales are not close
+                    # distinct symbolic scales are not close; their order is the one of the instance
+                    pe.assume = lambda text, env, pe=pe, scale_rep=scale_rep: decide_on_values(pe, text, env) if "isclose" in text \
+                        else decide_on_values(pe, text, env, scale_rep, generic=False)
+                    pe.order_rep = lambda scale_rep=scale_rep: scale_rep
                     try:
                         out = pe.apply(pe.getattr(self_, "a"), [dag.sym("mu1"), nf_b], {})
                     except PERaise as e:
@@ -192,6 +202,7 @@ def run(chk):
                         continue
                     finally:
                         pe.assume = None
+                        pe.order_rep = None
                         for q in (f"{CP}.Couplings.compute", "eko.matchings.Atlas.path", "eko.matchings.lepton_number"):
                             pe.overrides.pop(q, None)
                     chk.need(len(calls) == 2, f"expected two solver calls along a two-segment path, saw {len(calls)} ({inst})")
